@@ -65,7 +65,7 @@ def do_import(wt, prop, slug):
 
 
 def do_run(dirs, tier='quick', props=None):
-    dirs = dirs or sorted(os.path.join(V, 'seeded', x) for x in os.listdir(os.path.join(V, 'seeded')))
+    dirs = dirs or sorted(os.path.join(V, 'seeded', x) for x in os.listdir(os.path.join(V, 'seeded')) if os.path.isdir(os.path.join(V, 'seeded', x)))
     bad = 0
     for d in dirs:
         meta = json.load(open(os.path.join(d, 'meta.json')))
